@@ -273,6 +273,27 @@ func extractTarGz(tarGzFile, dest string) error {
 				return err
 			}
 			f.Close()
+		case tar.TypeLink:
+			// A further name of a regular file archived earlier: the entry has
+			// no data of its own, Linkname is the archive name of the first one.
+			source := filepath.Join(dest, header.Linkname)
+			if !strings.HasPrefix(source, filepath.Clean(dest)+string(os.PathSeparator)) {
+				return fmt.Errorf("%s: illegal hard link target %q", target, header.Linkname)
+			}
+			if fi, err := os.Lstat(source); err != nil {
+				return err
+			} else if !fi.Mode().IsRegular() {
+				return fmt.Errorf("%s: hard link target %q is not a regular file", target, header.Linkname)
+			}
+			if err := os.MkdirAll(filepath.Dir(target), 0755); err != nil {
+				return err
+			}
+			if err := os.Remove(target); err != nil && !os.IsNotExist(err) {
+				return err
+			}
+			if err := os.Link(source, target); err != nil {
+				return err
+			}
 		}
 	}
 	return nil
